@@ -280,3 +280,120 @@ mod tests {
         assert!(sleep.deadline.is_some());
     }
 }
+
+/// Verification hooks (compiled only with `--cfg dust_dds_verif`): drive the private [`TimerHeap`] and the
+/// timer thread's message handling deterministically, create a [`Sleep`] that talks to a harness-owned
+/// channel, and move stored deadlines into the past instead of waiting. Adds no behaviour to the library.
+#[cfg(dust_dds_verif)]
+#[doc(hidden)]
+pub mod verif {
+    use super::*;
+
+    pub struct VerifTimerHeap(TimerHeap);
+
+    impl Default for VerifTimerHeap {
+        fn default() -> Self {
+            Self::new()
+        }
+    }
+
+    impl VerifTimerHeap {
+        pub fn new() -> Self {
+            Self(TimerHeap::new())
+        }
+
+        pub fn push(&mut self, id: usize, deadline: Instant, waker: Waker) {
+            self.0.push(TimerWake {
+                id,
+                deadline,
+                waker,
+            })
+        }
+
+        pub fn remove(&mut self, id: usize) {
+            self.0.remove(id)
+        }
+
+        /// What the timer thread does with a received message (the `match new_timer` of the thread loop).
+        /// Returns (is_wake, id).
+        pub fn apply(&mut self, m: TimerMessage) -> (bool, usize) {
+            match m {
+                TimerMessage::Wake(t) => {
+                    let id = t.id;
+                    self.0.push(t);
+                    (true, id)
+                }
+                TimerMessage::Cancel(id) => {
+                    self.0.remove(id);
+                    (false, id)
+                }
+            }
+        }
+
+        /// The wake loop at the head of the timer thread's loop. Returns (id, deadline) of every popped entry, in pop order.
+        pub fn service(&mut self) -> Vec<(usize, Instant)> {
+            let mut popped = Vec::new();
+            while self.0.is_next_timer_elapsed() {
+                if let Some(t) = self.0.heap.peek() {
+                    popped.push((t.id, t.deadline));
+                }
+                self.0.notify_next_timer();
+            }
+            popped
+        }
+
+        pub fn duration_until_next_timer(&self) -> Option<Duration> {
+            self.0.duration_until_next_timer()
+        }
+
+        pub fn len(&self) -> usize {
+            self.0.heap.len()
+        }
+
+        pub fn is_empty(&self) -> bool {
+            self.0.heap.is_empty()
+        }
+
+        /// Virtual passage of time: every stored deadline moves `d` into the past.
+        pub fn shift_back(&mut self, d: Duration) {
+            let heap = std::mem::take(&mut self.0.heap);
+            self.0.heap = heap
+                .into_iter()
+                .map(|mut t| {
+                    t.deadline = t.deadline.checked_sub(d).expect("instant range");
+                    t
+                })
+                .collect();
+        }
+    }
+
+    impl TimerMessage {
+        pub fn verif_shift_back(&mut self, d: Duration) {
+            if let TimerMessage::Wake(t) = self {
+                t.deadline = t.deadline.checked_sub(d).expect("instant range");
+            }
+        }
+    }
+
+    impl Sleep {
+        /// A sleep with the given id that sends its messages to `sender` (instead of a timer thread).
+        pub fn verif_new(
+            id: usize,
+            duration: Duration,
+            sender: std::sync::mpsc::Sender<TimerMessage>,
+        ) -> Sleep {
+            Sleep {
+                id,
+                deadline: None,
+                duration,
+                periodic_task_sender: sender,
+            }
+        }
+
+        pub fn verif_shift_back(&mut self, d: Duration) {
+            if let Some(x) = self.deadline.as_mut() {
+                *x = x.checked_sub(d).expect("instant range");
+            }
+        }
+    }
+}
